@@ -114,6 +114,14 @@ Section Cfg.
     apply_entries c (b_entries b).
 End Cfg.
 
+(* MarketConfigPermissions::set_flag_updatable / set_factor_updatable (called by set_market_config_updatable, a
+   MARKET_KEEPER instruction): the request must CHANGE the bit (PreconditionsAreNotMet otherwise), then the bit
+   takes the requested value.  `upd` is the updatable set as a function. *)
+Definition set_updatable (valid : string -> bool) (upd : string -> bool) (k : string) (v : bool) : res (string -> bool) :=
+  if negb (valid k) then Err E_INVALID_KEY
+  else if Bool.eqb (upd k) v then Err E_PRECOND
+  else Ok (fun k' => if String.eqb k' k then v else upd k').
+
 (* the roles a caller effectively holds *)
 Definition is_keeper (e : env) : bool := member e && bit_mk e && match mk_status e with Enabled => true | _ => false end.
 Definition is_config_keeper (e : env) : bool := member e && bit_mck e && match mck_status e with Enabled => true | _ => false end.
